@@ -398,4 +398,40 @@ theorem iter_eq_topo {as topo : List (LHS × Expr)} (hp : as.Perm topo) (hA : Ac
   · rw [iter_passA_mem, hm]
   · exact hextra e
 
+/-! ### building sources-first lists -/
+
+theorem acyc_app {l1 l2 : List (LHS × Expr)} (h1 : Acyc l1) (h2 : Acyc l2)
+    (hx : ∀ a, a ∈ l1 → ∀ b, b ∈ l2 → (∀ n, n ∈ reads a.2 → n ≠ tgt b) ∧ tgt a ≠ tgt b) : Acyc (l1 ++ l2) := by
+  induction l1 with
+  | nil => exact h2
+  | cons a l ih =>
+    obtain ⟨hr, hw, hrest⟩ := h1
+    rw [List.cons_append]
+    have hgoal : (∀ b, b ∈ a :: (l ++ l2) → ∀ n, n ∈ reads a.2 → n ≠ tgt b) ∧ (∀ b, b ∈ l ++ l2 → tgt a ≠ tgt b) ∧
+        Acyc (l ++ l2) := by
+      refine ⟨?_, ?_, ih hrest (fun a' ha' => hx a' (by simp [ha']))⟩
+      · intro b hb n hn
+        simp only [List.mem_cons, List.mem_append] at hb
+        rcases hb with hb | hb | hb
+        · exact hr b (by simp [hb]) n hn
+        · exact hr b (by simp [hb]) n hn
+        · exact (hx a (by simp) b hb).1 n hn
+      · intro b hb
+        simp only [List.mem_append] at hb
+        rcases hb with hb | hb
+        · exact hw b hb
+        · exact (hx a (by simp) b hb).2
+    exact hgoal
+
+/-- a block in which nobody reads anybody's target is sources-first in any order -/
+theorem acyc_of_noread {l : List (LHS × Expr)} (h : ∀ a, a ∈ l → ∀ b, b ∈ l → ∀ n, n ∈ reads a.2 → n ≠ tgt b)
+    (hn : (l.map tgt).Nodup) : Acyc l := by
+  induction l with
+  | nil => trivial
+  | cons a l ih =>
+    simp only [List.map_cons, List.nodup_cons] at hn
+    refine ⟨fun b hb n hn' => h a (by simp) b hb n hn', ?_, ih (fun a' ha' b hb => h a' (by simp [ha']) b (by simp [hb])) hn.2⟩
+    intro b hb e
+    exact hn.1 (e ▸ List.mem_map.mpr ⟨b, hb, rfl⟩)
+
 end FlatM
